@@ -23,6 +23,23 @@ def main():
         if req.get("op") == "quit":
             break
         try:
+            if req.get("op") == "session":
+                outs = _env.run_session(
+                    req["invocations"],
+                    step_budget=req.get("step_budget", _env.DEFAULT_STEP_BUDGET),
+                    event_cap=req.get("event_cap", _env.DEFAULT_EVENT_CAP),
+                )
+                results = []
+                for k, (res, data) in enumerate(outs):
+                    with open(req["out_paths"][k], "wb") as f:
+                        f.write(data)
+                    if not req.get("want_events"):
+                        res.pop("events", None)
+                    results.append(res)
+                ans = {"id": req.get("id"), "ok": True, "res": results}
+                reply.write(json.dumps(ans) + "\n")
+                reply.flush()
+                continue
             res, data = _env.run_plan(
                 req["plan"],
                 twin=req.get("twin"),
